@@ -280,7 +280,14 @@ def rule_own_fields(ctx: Ctx, rep: Report) -> None:
     rule_own_fields_forwarded(ctx, rep, "C01.own_fields", ('btclib.curves',), 6)
 
 
+def rule_params_forwarded_(ctx: Ctx, rep: Report) -> None:
+    """C01.params_forwarded: a parameter is handed on to callees that have a parameter of the same name (see sigcommon.rule_params_forwarded)."""
+    from rules.sigcommon import rule_params_forwarded
+    rule_params_forwarded(ctx, rep, "C01.params_forwarded", ('btclib.curves', 'btclib.number_theory'), 150)
+
+
 RULES = [
+    ("C01.params_forwarded", rule_params_forwarded_),
     ("C01.own_fields", rule_own_fields),
     ("C01.on_curve", rule_on_curve),
     ("C01.infinity_by_y", rule_infinity_by_y),
